@@ -99,3 +99,45 @@ func VerifC19Injective() {
 	verifAssert(verifHash(a) != verifHash(b), "fnv64a-injective-on-short-names")
 	verifCover("end")
 }
+
+// VerifC19Concurrent: two dispatchers validate points of the same name at the same time (every input
+// connection runs Table.Dispatch in its own goroutine). The interleaving is a decision variable: the engine
+// may switch goroutines before every synchronisation operation, up to "preemptions" times per run. Whatever
+// the schedule, the two outcomes must be explained by one of the two serial orders (linearizable to a
+// max-register), and a third call afterwards must see the maximum of what was accepted.
+func VerifC19Concurrent() {
+	key := verifBytes("key", 2)
+	key2 := append([]byte{}, key...)
+	ts1, ts2, ts3 := verifUint32("ts1"), verifUint32("ts2"), verifUint32("ts3")
+	var e1, e2 error
+	done := make(chan bool, 2)
+	verifPreemptions(verifParamInt("preemptions", 1))
+	go func() { e1 = Ordered(key, ts1); done <- true }()
+	go func() { e2 = Ordered(key2, ts2); done <- true }()
+	<-done
+	<-done
+	verifPreemptions(0)
+	a1, a2 := e1 == nil, e2 == nil
+	// serial order 1,2: first accepted iff ts1 > 0, second iff ts2 > max(accepted so far); and vice versa
+	max12 := uint32(0)
+	if ts1 > 0 {
+		max12 = ts1
+	}
+	max21 := uint32(0)
+	if ts2 > 0 {
+		max21 = ts2
+	}
+	ok12 := verifAnd(a1 == (ts1 > 0), a2 == (ts2 > max12))
+	ok21 := verifAnd(a2 == (ts2 > 0), a1 == (ts1 > max21))
+	verifAssert(verifOr(ok12, ok21), "concurrent-calls-same-name-explained-by-a-serial-order")
+	top := uint32(0)
+	if a1 && ts1 > top {
+		top = ts1
+	}
+	if a2 && ts2 > top {
+		top = ts2
+	}
+	e3 := Ordered(key, ts3)
+	verifAssert((e3 == nil) == (ts3 > top), "after-concurrent-calls-register-holds-newest-accepted")
+	verifCover("end")
+}
